@@ -29,6 +29,22 @@ def build_cases(ctx, per_dialect_stmts, muts_per_stmt):
     return cases
 
 
+def _cmt(args):
+    """Token types of the text as lexed by the dialect lexer vs. of the text with comments removed by the reference rule."""
+    sql, d = args
+    import re
+    from .corpus import lex_spans, ref_strip_comments
+    if '/*' not in sql and '--' not in sql:
+        return None
+    text = re.sub(r'[\s;]+$', '', sql)
+    a = lex_spans(d, text)
+    b = lex_spans(d, ref_strip_comments(text))
+    if a is None or b is None:
+        return None if (a is None) == (b is None) else {'lib': a is not None, 'ref': b is not None}
+    ta, tb = [x[0] for x in a], [x[0] for x in b]
+    return None if ta == tb else {'lib': ta[:40], 'ref': tb[:40]}
+
+
 def judge(ctx, cases, results, verdicts_by_dialect):
     """Map TLC verdicts to C05 violations."""
     for (sql, d, kind), res, verdict in zip(cases, results, verdicts_by_dialect):
@@ -91,6 +107,17 @@ def run(ctx):
             raise MachineryError('GrammarStatic failed for %s: %s' % (d, r.errors[:3]))
 
     cases = build_cases(ctx, 100000 if thorough else 250, 40 if thorough else 10)
+    # comments: the token stream the parser sees must be the text minus its comments (reference rule, independent of the
+    # lexers' comment patterns) -- a lexer that drops more than the comment hides tokens from every later check
+    from .corpus import pmap
+    n_cmt = 0
+    for (sql, d, kind), diff in zip(cases, pmap(_cmt, [(s, d) for s, d, _ in cases], chunksize=64)):
+        if '/*' in sql or '--' in sql:
+            n_cmt += 1
+        if diff:
+            ctx.violation('tokens-lost-with-comment:%s' % d, 'the lexer does not produce the tokens of the text with its comments removed',
+                          {'sql': sql, 'dialect': d, 'kind': kind, 'tokens': diff})
+    ctx.cov['comment_cases'] = n_cmt
     results = slycheck.trace_corpus([(s, d) for s, d, _ in cases])
     n_acc = 0
     verdicts = [None] * len(cases)
